@@ -30,10 +30,6 @@ theorem eqMode_mkFlags (k : Kind) (m : CMode) (o p : Bool) :
     eqMode k (mkFlags m o p) = (k == .trait && m == .equality) := by
   cases k <;> cases m <;> cases o <;> cases p <;> decide
 
-theorem clearCmp_mkFlags (m : CMode) (o p : Bool) :
-    clearCmp (mkFlags m o p) = mkFlags .equality o p := by
-  cases m <;> cases o <;> cases p <;> decide
-
 /-! ### The configuration C02 quantifies over -/
 
 /-- Default, non-re-raising exception handlers on both stacks, no vetoing
